@@ -1,2 +1,3 @@
 pub mod resp;
 pub mod deflate;
+pub mod req;
